@@ -298,7 +298,12 @@ def check_pair(ctx, spec):
     if same_spec and not same:
         raise HarnessError('equal specs built different structures')
     if same and not same_spec:
-        classes.append('edit-equivalent')  # the edit did not change the structure forml sees: judge as identical
+        if edit == 'operand-swap':
+            # python evaluates ``element == column`` through the reflected ``column.__eq__(element)`` (Column subclasses
+            # Element), so swapping the operands of ==/!= can build the very same structure: judge as identical
+            classes.append('edit-equivalent')
+        else:
+            ctx.fail(spec, 'build', 'different-specs-same-structure', f'both specs built {ca}', trig)
     ctx.case(spec, nontrivial=nontrivial, classes=classes + ['pair:same' if same else 'pair:different'])
 
     def judge(clause, x, y, expect_same, extra=()):
@@ -590,8 +595,11 @@ def enumerate_extra(ctx, shard, nshards):
             for j, sj in enumerate(specs):
                 x, y = objs[i], again[j]
                 same = fps[i] == fps[j]
-                if label != 'schema' and (si == sj) != same:
-                    raise HarnessError(f'pool fingerprints disagree with specs: {si} / {sj}')
+                if label != 'schema' and si == sj and not same:
+                    raise HarnessError(f'two builds of one pool spec differ: {si}')
+                if label != 'schema' and si != sj and same:
+                    ctx.fail({'label': label, 'x': si, 'y': sj}, 'pool', 'different-specs-same-structure', f'both built {fps[i]}', [label] + trigger_tags(si, sj, 'other'))
+                    continue
                 spec = {'label': label, 'x': si, 'y': sj}
                 collide = _pool_collision(si, sj)
                 ctx.klass('pool-pair:same' if same else 'pool-pair:different')
